@@ -5,6 +5,12 @@ import itertools
 from .. import rx, pieces, paths, normalize, strlang
 from ..core import AnalysisError, norm, walk_no_nested
 
+
+def _OS_FIELDS(src):
+    from .common import ordered_set_fields
+    return ordered_set_fields(src)
+
+
 META = {
     'design_ref': 'DESIGN.md §5 C01',
     'technique': 'conservation analyses: one iteration of the tokenizer loop interpreted on symbolic strings (sa.heap + sa.symstr with automatic case refinement; the groups of the field regex, their feasible participation patterns and their tiling of the match taken from the marked automaton of _RE_FIELD_LINE) -- the yielded token texts concatenate to the line; "piece flow" over stream positions through the re-grouping generators (BufferingIterator API and itertools.groupby modelled) and through iter_tokens; regular-language decisions for the whitespace look-ahead (predicate languages per input mode, token invariant extracted from the paths of _verify_token_text) and for the input-mode selection; paragraph iter_parts interpreted on symbolic heaps; token constructors and their validators interpreted on symbolic texts with automatic case refinement (every text a tokenizer can hand them); from_kvpairs interpreted on case-insensitive names; iter_tokens, convert_to_text and dump interpreted on a model tree (the loop-shape analysis as a second opinion); closure-factory rule (no container of a factory is used by the nested function it returns)',
@@ -850,7 +856,7 @@ def r4_regrouping(rep, src):
                  where=f.where)
 
 
-def r5_element_order(rep, src):
+def r5_element_order(rep, src, rep_parts=None):
     m = src.mod(PM)
     n = 0
     for cname, cdef in sorted(m.classes.items()):
@@ -888,10 +894,10 @@ def r5_element_order(rep, src):
         want = [p for p in params if p in stored.values()]
         n += 1
         if seq == want:
-            rep.ok('C01.R5', ip.site, 'iter_parts yields the stored parts in constructor order', ' '.join(want))
+            (rep_parts or rep).ok('C01.R5', ip.site, 'iter_parts yields the stored parts in constructor order', ' '.join(want))
         else:
             missing = [p for p in want if p not in seq]
-            rep.fail('C01.R5', ip.site, 'iter_parts yields the stored parts in constructor order',
+            (rep_parts or rep).fail('C01.R5', ip.site, 'iter_parts yields the stored parts in constructor order',
                      'constructor stores %s but iter_parts enumerates %s%s: tokens are dropped or re-ordered on dump' % (want, seq, ' (missing: %s)' % missing if missing else ''),
                      where=ip.where)
     if n < 2:
@@ -932,7 +938,7 @@ def r5_element_order(rep, src):
             table = heap.new_dict('@table')
             for k, n in zip(keys, nodes):
                 heap.objs[table.name]['entries'].append((k, n))
-            oset = heap.alloc('OrderedSet', {'_OrderedSet__table': table, '_OrderedSet__order': lst}, name='@set')
+            oset = heap.alloc('OrderedSet', {_OS_FIELDS(src)[0]: table, _OS_FIELDS(src)[1]: lst}, name='@set')
             d = heap.new_dict('@elements')
             want = []
             kvd = {k.cls: C10.mk_kv(heap, k, k.cls + '0') for k in keys}
@@ -1009,6 +1015,69 @@ def r5b_tokens_by_interpretation(rep, src):
                 rep.fail('C01.R5', f.site, what, 'on the tree root[T1 E1[T2 E2[T3] T4] T5 E3[] T6] the result is %r; the tokens in document order give %r: tokens are dropped, repeated '
                          'or re-ordered' % (got, want if want is not None else ORDER), where=f.where)
     rep.analysed['paths'] += n
+
+
+def r5c_parts_by_interpretation(rep, src):
+    """the element classes that are built from several parts (a value line, a field): the constructor and iter_parts interpreted (sa.heap) on
+    stand-in parts -- every part present, and each optional part absent in turn (where the constructor accepts that) -- give the parts
+    that were handed in, each once, in the order of the constructor's parameters (a part that is a list: its items in order).  However
+    iter_parts is written (tests, filter(None, ...), helpers, a local bound on the way)."""
+    from .. import heap as H
+    m = src.mod(PM)
+    n = 0
+    for cname in sorted(m.classes):
+        if 'Deb822Element' not in m.mro(cname) or cname == 'Deb822Element':
+            continue
+        init = m.funcs.get(cname + '.__init__')
+        ip = m.funcs.get(cname + '.iter_parts')
+        if init is None or ip is None or len(init.params()) < 3 or init.node.args.vararg or init.node.args.kwarg:
+            continue
+        params = init.params()[1:]
+        if any(p_.startswith('kvpair') for p_ in params):
+            continue          # the paragraph classes: their parts follow the field order structure (below)
+        rep.saw_func(ip)
+        is_list = {p_: (p_.endswith('s') or any(w_ in p_ for w_ in ('parts', 'tokens', 'elements', 'lines'))) for p_ in params}
+        runs = [(None, 'every part present')] + [(p_, 'without %s' % p_) for p_ in params if not is_list[p_]]
+        bad = None
+        accepted = 0
+        for absent, label in runs:
+            heap = H.Heap(m, extra_modules=[src.mod('_util'), src.mod(TK), src.mod('_deb822_repro._util')])
+            it = H.Interp(heap)
+            args, want = [], []
+            for p_ in params:
+                if p_ == absent:
+                    args.append(None)
+                elif is_list[p_]:
+                    items = [heap.alloc('Deb822Token', {'_text': 'x', 'text': 'x', '_parent_element': None}, name='@%s_%d' % (p_, k_)) for k_ in (1, 2)]
+                    args.append(heap.new_list(items))
+                    want += [x_.name for x_ in items]
+                else:
+                    t_ = heap.alloc('Deb822Token', {'_text': 'x', 'text': 'x', '_parent_element': None}, name='@' + p_)
+                    args.append(t_)
+                    want.append(t_.name)
+            me = heap.alloc(cname, {})
+            try:
+                it.call(H.Closure(init.node, {}, me, init.cls), args)
+            except H.Raised:
+                continue          # the constructor refuses this combination
+            accepted += 1
+            try:
+                got = [x_.name if isinstance(x_, H.Ref) else repr(x_) for x_ in it.seq(it.call(H.Closure(ip.node, {}, me, ip.cls), []))]
+            except H.Raised as x:
+                got = 'raises %s (line %d)' % (x.exc, x.lineno)
+            if got != want and bad is None:
+                bad = '%s: iter_parts gives %s; the parts handed to the constructor are %s' % (label, got if isinstance(got, str) else ' '.join(g_.lstrip('@') for g_ in got) or 'nothing',
+                                                                                          ' '.join(w_.lstrip('@') for w_ in want))
+        if not accepted:
+            raise AnalysisError('%s: the constructor refuses every stand-in combination' % ip.site)
+        n += 1
+        what = 'iter_parts gives the parts the element was built from, in constructor order (interpreted)'
+        if bad:
+            rep.fail('C01.R5', ip.site, what, bad + ': tokens are dropped, repeated or re-ordered on dump', where=ip.where)
+        else:
+            rep.ok('C01.R5', ip.site, what, '%d combination(s) of present / absent parts' % accepted)
+    if n < 2:
+        raise AnalysisError('only %d element classes with several parts interpreted' % n)
 
 
 def r11_tokenizer_end_to_end(rep, src, tier):
@@ -1357,7 +1426,12 @@ def check(src, rep, tier):
     walk_holds = len(rep.violations) == n_v and len(rep.errors) == n_e
     n_r5 = sum(1 for i_ in rep.instances if i_.get('rule') == 'C01.R5')
     from . import common as _common
-    _common.SoftErrors(rep, lambda: walk_holds, 'the interpreted walks over a model tree (C01.R5), which hold').guard('C01.R5', r5_element_order, src)
+    n_v, n_e = len(rep.violations), len(rep.errors)
+    rep.guard('C01.R5', r5c_parts_by_interpretation, src)
+    parts_hold = len(rep.violations) == n_v and len(rep.errors) == n_e
+    # (the order in which iter_parts MENTIONS the stored attributes: a second opinion behind the interpreted constructor + iter_parts)
+    soft_parts = _common.SoftAll(rep, lambda: parts_hold, 'the interpreted constructors and iter_parts (C01.R5), which give the parts in constructor order')
+    _common.SoftErrors(rep, lambda: walk_holds, 'the interpreted walks over a model tree (C01.R5), which hold').guard('C01.R5', r5_element_order, src, soft_parts)
     if rep.min_instances.get('C01.R5') == 0:
         rep.min_instances['C01.R5'] = n_r5
     rep.guard('C01.R8', r8_token_invariants, src)
